@@ -2,6 +2,7 @@ package checks
 
 import (
 	"fmt"
+	"os"
 	"strings"
 
 	"github.com/gogpu/naga/ir"
@@ -227,6 +228,10 @@ func c07Program(r *explore.Run, p *prog) {
 	if p.Case == nil {
 		return
 	}
+	if p.Case.Family == "F3x" || p.Case.Family == "F3xt" {
+		c07xProgram(r, p) // static-only family (f16, atomics, attribute spellings): c07x.go
+		return
+	}
 	m, _, err, pn := nagax.Front(p.Src)
 	if err != nil || pn != nil {
 		r.Skip("front end rejected/panicked (C08/C10)")
@@ -247,7 +252,18 @@ func c07Program(r *explore.Run, p *prog) {
 func runC07() int {
 	r := explore.New("C07")
 	fam := wgen.F3(r.Thorough())
-	forEachProgram(r, []*wgen.Family{fam}, nil, func(p *prog) { c07Program(r, p) })
+	famx := wgen.F3x(r.Thorough())
+	fams := []*wgen.Family{fam, famx}
+	if only := os.Getenv("VERIF_C07_FAMILY"); only != "" { // authoring aid (no registered command sets it): run one family only
+		fams = nil
+		for _, f := range []*wgen.Family{fam, famx} {
+			if f.Name == only {
+				fams = append(fams, f)
+			}
+		}
+		r.NotExhaustive("VERIF_C07_FAMILY=" + only)
+	}
+	forEachProgram(r, fams, nil, func(p *prog) { c07Program(r, p) })
 	c := fam.At(fam.Count / 2)
 	r.Sample(map[string]any{"shape": c.Sig, "source": wgen.Print(c.Mod)})
 	printKeys(r)
